@@ -131,6 +131,25 @@ static RunRecord do_run(const std::vector<const PropertyEngine *> &engs, const T
   return rr;
 }
 
+static std::vector<std::vector<std::string>>
+domains_for(const std::vector<const PropertyEngine *> &engs, const Tier &tier, const Options &o) {
+  std::vector<std::vector<std::string>> doms;
+  for (auto e : engs) {
+    auto d = e->domains(tier);
+    if (!o.domains.empty()) {
+      auto want = split(o.domains, ',');
+      std::vector<std::string> f;
+      // --domains may also name domains outside the tier's default list
+      for (auto &x : want)
+        if (find_domain(x))
+          f.push_back(x);
+      d = f;
+    }
+    doms.push_back(d);
+  }
+  return doms;
+}
+
 // --------------------------------------------------------------------------
 // worker process: handles indices start + w + k*W, appends JSON lines
 // --------------------------------------------------------------------------
@@ -139,19 +158,7 @@ static int worker_main(const Options &o) {
   if (engs.empty())
     return 3;
   Tier tier = tier_of(o.tier);
-  std::vector<std::vector<std::string>> doms;
-  for (auto e : engs) {
-    auto d = e->domains(tier);
-    if (!o.domains.empty()) {
-      auto want = split(o.domains, ',');
-      std::vector<std::string> f;
-      for (auto &x : d)
-        if (std::find(want.begin(), want.end(), x) != want.end())
-          f.push_back(x);
-      d = f;
-    }
-    doms.push_back(d);
-  }
+  std::vector<std::vector<std::string>> doms = domains_for(engs, tier, o);
   FILE *f = fopen(o.worker_file.c_str(), "a");
   if (!f)
     return 3;
@@ -666,9 +673,7 @@ static int property_main(const Options &o) {
   // samples: regenerate the first cases of this batch
   Json samples = Json::arr();
   {
-    std::vector<std::vector<std::string>> doms;
-    for (auto e : engs)
-      doms.push_back(e->domains(tier));
+    std::vector<std::vector<std::string>> doms = domains_for(engs, tier, o);
     for (long i = o.start_index; i < o.start_index + std::min<long>(runs, (long)engs.size() * 2);
          i++) {
       size_t ei = (size_t)(i % (long)engs.size());
@@ -848,6 +853,10 @@ int main(int argc, char **argv) {
       o.list = true;
     else if (a == "--dump-case")
       o.dump_case = true;
+    else if (a == "--worker-id")
+      o.worker_id = atoi(next().c_str());
+    else if (a == "--worker-file")
+      o.worker_file = next();
     else if (a == "--quiet")
       o.quiet = true;
     else if (a == "--no-minimise")
@@ -881,13 +890,18 @@ int main(int argc, char **argv) {
     fprintf(stderr, "need --property\n");
     return 3;
   }
+  if (o.worker_id >= 0 && !o.worker_file.empty()) {
+    if (o.runs < 0)
+      o.runs = 1000;
+    return worker_main(o); // debugging: run one worker's stride in the foreground
+  }
   if (o.dump_case) {
     // print the case generated for run index --start (no check is run)
     auto engs = engines_of(o.property);
     Tier tier = tier_of(o.tier);
     size_t ei = (size_t)(o.start_index % (long)engs.size());
     Rng r(run_seed(o.seed, o.start_index));
-    Case c = engs[ei]->gen(r, tier, engs[ei]->domains(tier));
+    Case c = engs[ei]->gen(r, tier, domains_for(engs, tier, o)[ei]);
     c.origin_seed = run_seed(o.seed, o.start_index);
     Json j = Json::obj();
     j.set("engine", engs[ei]->id);
